@@ -1212,6 +1212,12 @@ func (c *Compiler) optimizeFunc(node parser.Node) {
 	var deadCode bool
 	iterateInstructions(c.scopes[c.scopeIndex].Instructions,
 		func(pos int, opcode parser.Opcode, operands []int) bool {
+			if verifEnabled && verifKeepDead() {
+				posMap[pos] = len(newInsts)
+				newInsts = append(newInsts,
+					MakeInstruction(opcode, operands...)...)
+				return true
+			}
 			switch {
 			case dsts[pos]:
 				dstIdx++
@@ -1229,6 +1235,10 @@ func (c *Compiler) optimizeFunc(node parser.Node) {
 				MakeInstruction(opcode, operands...)...)
 			return true
 		})
+
+	if verifEnabled {
+		verifLogDCE(c.scopes[c.scopeIndex].Instructions, posMap)
+	}
 
 	// pass 3. update jump positions
 	var lastOp parser.Opcode
